@@ -310,10 +310,16 @@ type pathEnum struct {
 type cstate struct {
 	eq  map[ssa.Value]string
 	neq map[ssa.Value]map[string]bool
+	// lits: literals (canonical strings) established on the path since the last event that can
+	// change memory; a branch whose literal contradicts one of them is infeasible.
+	lits map[string]bool
 }
 
 func (c *cstate) clone() *cstate {
-	n := &cstate{eq: map[ssa.Value]string{}, neq: map[ssa.Value]map[string]bool{}}
+	n := &cstate{eq: map[ssa.Value]string{}, neq: map[ssa.Value]map[string]bool{}, lits: map[string]bool{}}
+	for k := range c.lits {
+		n.lits[k] = true
+	}
 	for k, v := range c.eq {
 		n.eq[k] = v
 	}
@@ -410,7 +416,7 @@ func Paths(fn *ssa.Function, opts PathOpts) ([]*Path, bool) {
 	}
 	pe := &pathEnum{opts: opts}
 	visits := map[*ssa.BasicBlock]int{}
-	cs := &cstate{eq: map[ssa.Value]string{}, neq: map[ssa.Value]map[string]bool{}}
+	cs := &cstate{eq: map[ssa.Value]string{}, neq: map[ssa.Value]map[string]bool{}, lits: map[string]bool{}}
 	pe.walk(fn, opts.Start, nil, nil, visits, cs, true)
 	return pe.paths, !pe.over
 }
@@ -446,7 +452,50 @@ func (pe *pathEnum) walk(fn *ssa.Function, b *ssa.BasicBlock, blocks []*ssa.Basi
 	visits[b]++
 	defer func() { visits[b]-- }()
 	blocks = append(blocks, b)
-	evs = append(evs[:len(evs):len(evs)], blockEvents(b)...)
+	bev := blockEvents(b)
+	evs = append(evs[:len(evs):len(evs)], bev...)
+	for _, e := range bev {
+		switch e.Kind {
+		case EvStore:
+			// type-based invalidation: a store to a field can only change loads of that field, a store
+			// to an element only element loads, a store to a local only that local; anything else
+			// (store through a bare pointer, whole-struct store) invalidates everything.
+			cs = cs.clone()
+			st := e.Instr.(*ssa.Store)
+			switch a := st.Addr.(type) {
+			case *ssa.FieldAddr:
+				f := "." + fieldOfAddr(a).Name()
+				for l := range cs.lits {
+					if strings.Contains(l, f) {
+						delete(cs.lits, l)
+					}
+				}
+			case *ssa.IndexAddr:
+				for l := range cs.lits {
+					if strings.Contains(l, "[") {
+						delete(cs.lits, l)
+					}
+				}
+			case *ssa.Alloc:
+				n := AddrTerm(a)
+				for l := range cs.lits {
+					if strings.Contains(l, n) {
+						delete(cs.lits, l)
+					}
+				}
+			default:
+				cs.lits = map[string]bool{}
+			}
+		case EvMapUpdate, EvDefer, EvGo, EvSend, EvRunDefers:
+			cs = cs.clone()
+			cs.lits = map[string]bool{}
+		case EvCall:
+			if n := calleeName(e.Instr); n != "len" && n != "cap" {
+				cs = cs.clone()
+				cs.lits = map[string]bool{}
+			}
+		}
+	}
 	last := b.Instrs[len(b.Instrs)-1]
 	switch t := last.(type) {
 	case *ssa.Return:
@@ -468,7 +517,12 @@ func (pe *pathEnum) walk(fn *ssa.Function, b *ssa.BasicBlock, blocks []*ssa.Basi
 			if pe.opts.SkipEdge != nil && pe.opts.SkipEdge(b, s) {
 				continue
 			}
+			lit := Lit(t.Cond, pol)
+			if !pe.opts.NoPrune && cs.lits[NegLit(lit)] {
+				continue // contradicts a literal established earlier with no memory change in between
+			}
 			ncs := cs.clone()
+			ncs.lits[lit] = true
 			ncs.assume(t.Cond, pol)
 			ne := append(evs[:len(evs):len(evs)], Event{Kind: EvCond, Text: Lit(t.Cond, pol), Instr: t, Pol: pol})
 			pe.walk(fn, s, blocks, ne, visits, ncs, false)
